@@ -6,6 +6,7 @@
 -/
 import TmVerif.Monitor.Lemmas
 import TmVerif.Monitor.ZkLayer
+import TmVerif.Monitor.Create
 
 namespace TmVerif.Monitor
 
@@ -270,6 +271,16 @@ example :
     let z := zrun { st := St.init } [.put 1 2 .fifo, .other (.eval (fun _ => .ok)), .other (.eval (fun _ => .ok)),
                                      .reconnect, .reconnect]
     (reevaluate z.st (fun _ => .ok)).2.calls = [] ∧ (lookup 1 z.st.sched).getD [] = [] := by decide
+
+/-- **C20 (never more than asked).**  Whatever happens to the connection, a create request for `count`
+    instances schedules at most `count`, and exactly `count` when it succeeds. -/
+theorem C20_created_le (count : Nat) (lossAt : Option Nat) :
+    (createApps count lossAt).1 ≤ count ∧ ((createApps count lossAt).2 = true → (createApps count lossAt).1 = count) := by
+  unfold createApps
+  cases lossAt with
+  | none => simp
+  | some i => by_cases h : i < count <;> simp [h] <;> omega
+
 
 /-- **C20 (failures).** For one monitor: `NotFound`, `BadRequest` and `Validation` failures
     suspend it for `_DELAY_INTERVAL` without spending budget; any other failure changes nothing. -/
